@@ -10,6 +10,7 @@
 //    inside the bracket around the call under test).
 //
 // Underlying blocks are numbered 1,2,3,... in the order the platform hands them out (0 = NULL).
+#include <sys/mman.h>
 #include "fixture.h"
 #include <new>
 #include "CppUTest/MemoryLeakDetector.h"
@@ -30,9 +31,19 @@ namespace {
 
 const size_t LIMIT = 1u << 20;      // never really allocate more than 1 MiB (+ bookkeeping slack below)
 const size_t SLACK = 4096;
+// A few selected HUGE requests (2^32 .. 2^32 + 64 KiB, only while a `balloc` / `brealloc` operation runs) are answered
+// with a lazily backed anonymous mapping: only the pages the detector or the harness touches are ever backed.
+const size_t HUGE_LO = (size_t) 1 << 32;
+const size_t HUGE_HI = HUGE_LO + (1u << 16);
+bool g_huge_ok = false;
+inline bool huge_req(size_t n) { return g_huge_ok && n >= HUGE_LO && n <= HUGE_HI; }
+char* huge_map(size_t n) {
+    void* p = mmap(0, n, PROT_READ | PROT_WRITE, MAP_PRIVATE | MAP_ANONYMOUS | MAP_NORESERVE, -1, 0);
+    return p == MAP_FAILED ? 0 : (char*) p;
+}
 
 // ---------------------------------------------------------------- block table (no heap use: it is consulted inside the seams)
-struct Blk { char* p; size_t size; unsigned long id; };
+struct Blk { char* p; size_t size; unsigned long id; bool mapped; };
 Blk g_blk[16384];
 int g_nblk = 0;
 unsigned long g_nextid = 1;
@@ -40,7 +51,7 @@ unsigned long g_nextid = 1;
 unsigned long reg(char* p, size_t size, unsigned long id = 0) {
     if (g_nblk >= 16384) { vh::emit("harness-error block table full"); fflush(stdout); _exit(3); }
     if (!id) id = g_nextid++;
-    g_blk[g_nblk].p = p; g_blk[g_nblk].size = size; g_blk[g_nblk].id = id; g_nblk++;
+    g_blk[g_nblk].p = p; g_blk[g_nblk].size = size; g_blk[g_nblk].id = id; g_blk[g_nblk].mapped = false; g_nblk++;
     return id;
 }
 int find_exact(const void* p) { for (int i = 0; i < g_nblk; i++) if (g_blk[i].p == (const char*) p) return i; return -1; }
@@ -78,14 +89,24 @@ void* seam_realloc(void* m, size_t n) {
     if (!g_bracket) return real_realloc(m, n);
     int oi = m ? find_exact(m) : -1;
     unsigned long oldid = oi >= 0 ? g_blk[oi].id : 0;
-    bool fail = countdown(g_fail_realloc) || n > LIMIT + SLACK;
-    char* p = fail ? 0 : (char*) real_realloc(m, n);
+    bool huge = huge_req(n);
+    bool old_mapped = oi >= 0 && g_blk[oi].mapped;
+    size_t oldn = oi >= 0 ? g_blk[oi].size : 0;
+    bool fail = countdown(g_fail_realloc) || (n > LIMIT + SLACK && !huge);
+    char* p = 0;
+    if (!fail && (huge || old_mapped)) {                    // a mapping is involved: realloc by hand, same contract
+        if (huge && old_mapped) { void* q = mremap(m, oldn, n, MREMAP_MAYMOVE); p = q == MAP_FAILED ? 0 : (char*) q; }
+        else if (huge) { p = huge_map(n); if (p && m) { memcpy(p, m, oldn); real_free(m); } }
+        else { p = (char*) real_malloc(n ? n : 1); if (p) { memcpy(p, m, oldn < n ? oldn : n); munmap(m, oldn); } }
+    }
+    else if (!fail) p = (char*) real_realloc(m, n);
     unsigned long id = 0;
     if (p) {
         g_realloc_moved = true;
         oi = m ? find_exact(m) : -1;
         if (oi >= 0) unreg(oi);
         id = reg(p, n, (p == (char*) m) ? oldid : 0);
+        if (huge) g_blk[g_nblk - 1].mapped = true;
     }
     if (!g_quiet) vh::emit("urealloc %lu %lu %lu", oldid, (unsigned long) n, id);
     if (!p && !fail && m && n == 0) {
@@ -123,9 +144,11 @@ struct Reporter : public MemoryLeakFailure {
 struct RecAllocator : public TestMemoryAllocator {
     RecAllocator(const char* name, const char* a, const char* f) : TestMemoryAllocator(name, a, f) {}
     char* alloc_memory(size_t size, const char*, size_t) CPPUTEST_OVERRIDE {
-        bool fail = countdown(g_fail_alloc) || size > LIMIT + SLACK;
-        char* p = fail ? 0 : (char*) malloc(size);
+        bool huge = huge_req(size);
+        bool fail = countdown(g_fail_alloc) || (size > LIMIT + SLACK && !huge);
+        char* p = fail ? 0 : huge ? huge_map(size) : (char*) malloc(size);
         unsigned long id = p ? reg(p, size) : 0;
+        if (p && huge) g_blk[g_nblk - 1].mapped = true;
         if (!g_quiet) vh::emit("ualloc %lu %lu", (unsigned long) size, id);
         return p;
     }
@@ -139,7 +162,7 @@ struct RecAllocator : public TestMemoryAllocator {
     void free_memory(char* memory, size_t, const char*, size_t) CPPUTEST_OVERRIDE {
         int i = find_exact(memory);
         if (!g_quiet) vh::emit("ufree %lu", i >= 0 ? g_blk[i].id : 0);
-        if (i >= 0) { unreg(i); free(memory); }
+        if (i >= 0) { bool mapped = g_blk[i].mapped; size_t n = g_blk[i].size; unreg(i); if (mapped) munmap(memory, n); else free(memory); }
     }
     void freeMemoryLeakNode(char* memory) CPPUTEST_OVERRIDE {
         int i = find_exact(memory);
@@ -179,9 +202,39 @@ void write_pattern(char* p, size_t from, size_t to, unsigned long seed) {
     vh::emit("wrote %lu", (unsigned long) (to > from ? to - from : 0));
 }
 
-struct Lab { char* p; size_t size; int fam; bool global; bool live; unsigned long id; bool sep; };
+struct Lab { char* p; size_t size; int fam; bool global; bool live; unsigned long id; bool sep; bool big; };
 
-Lab mklab(char* p, size_t size, int fam, bool global, unsigned long id, bool sep) { Lab l = { p, size, fam, global, true, id, sep }; return l; }
+Lab mklab(char* p, size_t size, int fam, bool global, unsigned long id, bool sep, bool big = false) { Lab l = { p, size, fam, global, true, id, sep, big }; return l; }
+
+// ---- blocks handled through their EDGES only (`balloc` / `brealloc` / `bfree`: sizes up to 2^32 + 64 KiB)
+const size_t EDGE = 32;
+
+void emit_hexline(const char* name, const char* p, size_t from, size_t to) {
+    static const char* d = "0123456789abcdef";
+    char buf[2 * EDGE + 2];
+    size_t n = to > from ? to - from : 0;
+    if (n > EDGE) n = EDGE;
+    for (size_t i = 0; i < n; i++) { unsigned char b = (unsigned char) p[from + i]; buf[2 * i] = d[b >> 4]; buf[2 * i + 1] = d[b & 15]; }
+    buf[2 * n] = 0;
+    vh::emit("%s %lu %s", name, (unsigned long) n, n ? buf : "-");
+}
+
+// the bytes right behind the caller's `size` bytes, as far as the platform block reaches (where the guard bytes belong)
+void emit_behind(const char* p, size_t size) {
+    int bi = find_containing(p);
+    size_t g = MemoryLeakDetector::memory_corruption_buffer_size;
+    size_t avail = bi >= 0 ? g_blk[bi].size - (size_t) (p - g_blk[bi].p) : 0;
+    if (size + g > avail) { vh::emit("behind outside-the-block"); return; }
+    emit_hexline("behind", p, size, size + g);
+}
+
+// the harness writes its pattern into the first and the last EDGE user bytes
+void write_edges(char* p, size_t size, unsigned long seed) {
+    size_t h = size < EDGE ? size : EDGE;
+    for (size_t i = 0; i < h; i++) p[i] = (char) pat(seed, i);
+    for (size_t i = size > EDGE ? size - EDGE : 0; i < size; i++) p[i] = (char) pat(seed, i);
+    vh::emit("wrote-edges");
+}
 
 unsigned long id_of(const void* p) { int i = find_containing(p); return i >= 0 ? g_blk[i].id : 0; }   // fam 0 new, 1 new[], 2 malloc
 
@@ -261,7 +314,7 @@ void body() {
             char* old = 0; size_t oldsize = 0;
             bool sep = w.size() == 7 ? (w[6] == "1") : (fam == 2);
             if (w[2] != "null") {
-                if (!labs.count(w[2]) || labs[w[2]].global) { vh::emit("> skip"); continue; }
+                if (!labs.count(w[2]) || labs[w[2]].global || labs[w[2]].big) { vh::emit("> skip"); continue; }
                 old = labs[w[2]].p; oldsize = labs[w[2]].size; sep = labs[w[2]].sep;      // the layout the block was allocated with
             }
             if (sep == (fam == 2)) vh::emit("> realloc %s %lu %lu %lu", w[1].c_str(), old ? labs[w[2]].id : 0UL, (unsigned long) size, seed);
@@ -283,7 +336,7 @@ void body() {
         }
         else if (op == "free" && w.size() == 3 && fam_of(w[1]) >= 0) {        // free <fam> <label>
             int fam = fam_of(w[1]);
-            if (!labs.count(w[2]) || labs[w[2]].global) { vh::emit("> skip"); continue; }
+            if (!labs.count(w[2]) || labs[w[2]].global || labs[w[2]].big) { vh::emit("> skip"); continue; }
             Lab& l = labs[w[2]];
             if (l.sep == (fam == 2)) vh::emit("> free %s %lu", w[1].c_str(), l.id);
             else vh::emit("> freex %s %lu %d", w[1].c_str(), l.id, l.sep ? 1 : 0);
@@ -293,9 +346,55 @@ void body() {
             vh::emit("total %lu", (unsigned long) det.totalMemoryLeaks(mem_leak_period_all));
         }
         else if ((op == "peek" || op == "gpeek") && w.size() == 2) {
-            if (!labs.count(w[1]) || !labs[w[1]].live) { vh::emit("> skip"); continue; }
+            if (!labs.count(w[1]) || !labs[w[1]].live || labs[w[1]].big) { vh::emit("> skip"); continue; }
             vh::emit("> %s %lu %lu", op.c_str(), labs[w[1]].id, (unsigned long) labs[w[1]].size);
             emit_content(labs[w[1]].p, labs[w[1]].size);
+        }
+        // ------------------------------------------------------------ private detector, blocks observed through their edges (huge sizes)
+        else if (op == "balloc" && w.size() == 6 && fam_of(w[1]) >= 0) {          // balloc <fam> <size> <label> <seed> <sep 0|1>
+            int fam = fam_of(w[1]); size_t size = (size_t) vh::to_u64(w[2]); unsigned long seed = vh::to_u64(w[4]);
+            bool sep = w[5] == "1";
+            vh::emit("> balloc %s %lu %lu %d", w[1].c_str(), (unsigned long) size, seed, sep ? 1 : 0);
+            g_huge_ok = true;
+            char* p = det.allocMemory(allocs[fam], size, "h_c05", 1, sep);
+            g_huge_ok = false;
+            emit_ret(p);
+            if (p) { emit_behind(p, size); write_edges(p, size, seed); labs[w[3]] = mklab(p, size, fam, false, id_of(p), sep, true); }
+            vh::emit("total %lu", (unsigned long) det.totalMemoryLeaks(mem_leak_period_all));
+        }
+        else if (op == "brealloc" && w.size() == 7 && fam_of(w[1]) >= 0) {        // brealloc <fam> <label|null> <size> <newlabel> <seed> <sep, for null>
+            int fam = fam_of(w[1]); size_t size = (size_t) vh::to_u64(w[3]); unsigned long seed = vh::to_u64(w[5]);
+            char* old = 0; size_t oldsize = 0;
+            bool sep = w[6] == "1";
+            if (w[2] != "null") {
+                if (!labs.count(w[2]) || labs[w[2]].global || !labs[w[2]].big || !labs[w[2]].live || labs[w[2]].fam != fam) { vh::emit("> skip"); continue; }
+                old = labs[w[2]].p; oldsize = labs[w[2]].size; sep = labs[w[2]].sep;
+            }
+            vh::emit("> brealloc %s %lu %lu %lu %d", w[1].c_str(), old ? labs[w[2]].id : 0UL, (unsigned long) size, seed, sep ? 1 : 0);
+            g_realloc_moved = false;
+            g_huge_ok = true; g_bracket = true;
+            char* p = det.reallocMemory(allocs[fam], old, size, "h_c05", 2, sep);
+            g_bracket = false; g_huge_ok = false;
+            emit_ret(p);
+            if (!p && old && g_realloc_moved) labs[w[2]].live = false;
+            if (p) {
+                size_t keep = oldsize < size ? oldsize : size;
+                emit_hexline("head", p, 0, keep);                                              // the first bytes of the preserved prefix
+                if (old && size >= oldsize) emit_hexline("tail", p, oldsize > EDGE ? oldsize - EDGE : 0, oldsize);   // and, when it grew, the last ones
+                emit_behind(p, size);
+                write_edges(p, size, seed);
+                if (old) labs[w[2]].live = false;
+                labs[w[4]] = mklab(p, size, fam, false, id_of(p), sep, true);
+            }
+            vh::emit("total %lu", (unsigned long) det.totalMemoryLeaks(mem_leak_period_all));
+        }
+        else if (op == "bfree" && w.size() == 2) {                                 // bfree <label>: deallocMemory (no poisoning pass over the bytes)
+            if (!labs.count(w[1]) || labs[w[1]].global || !labs[w[1]].big || !labs[w[1]].live) { vh::emit("> skip"); continue; }
+            Lab& l = labs[w[1]];
+            vh::emit("> bfree %s %lu %d", l.fam == 0 ? "new" : l.fam == 1 ? "newarr" : "malloc", l.id, l.sep ? 1 : 0);
+            det.deallocMemory(allocs[l.fam], l.p, "h_c05", 3, l.sep);
+            l.live = false;
+            vh::emit("total %lu", (unsigned long) det.totalMemoryLeaks(mem_leak_period_all));
         }
         // ------------------------------------------------------------ global API
         else if (op == "goom" && w.size() == 2) {
@@ -466,7 +565,7 @@ void body() {
             for (std::map<std::string, Lab>::iterator it = labs.begin(); it != labs.end(); ++it) {
                 Lab& l = it->second;
                 if (!l.live) continue;
-                if (!l.global) { det.invalidateMemory(l.p); det.deallocMemory(allocs[l.fam], l.p, "h_c05", 9, l.sep); }
+                if (!l.global) { if (!l.big) det.invalidateMemory(l.p); det.deallocMemory(allocs[l.fam], l.p, "h_c05", 9, l.sep); }
                 else {
                     gfreed++;
                     g_bracket = true;
